@@ -28,6 +28,7 @@ def plan(tier, seed):
         n = {"two": 6, "three": 5, "four": 3, "merge": 3, "five": 1}[tpl] * (1 if q else 5)
         specs.append({"name": "dual-" + tpl, "kind": "dual", "tpl": tpl, "n": n, "timeout": 2400})
     specs.append({"name": "migmat", "kind": "migmat", "n": 4 if q else 16, "timeout": 2400})
+    specs.append({"name": "migwindow", "kind": "migwindow", "n": 4 if q else 16, "timeout": 2400})
     specs.append({"name": "invariance", "kind": "invariance", "n": 6 if q else 40, "timeout": 2400})
     specs.append({"name": "yaml", "kind": "yaml", "once": True, "timeout": 2400})
     specs.append({"name": "ancient", "kind": "ancient", "n": 4 if q else 24, "timeout": 2400})
@@ -61,7 +62,7 @@ def cmp(a, b):
 def run(spec, rec):
     import dadi
     import demes
-    {"dual": run_dual, "migmat": run_migmat, "invariance": run_invariance, "yaml": run_yaml, "ancient": run_ancient, "export": run_export,
+    {"dual": run_dual, "migmat": run_migmat, "migwindow": run_migwindow, "invariance": run_invariance, "yaml": run_yaml, "ancient": run_ancient, "export": run_export,
      "slice": run_slice, "ancient5": run_ancient5}[spec["kind"]](spec, rec, dadi, demes)
 
 
@@ -200,6 +201,10 @@ def make_four(rng, demes):
     mAD = float(rng.choice([0, rng.uniform(1e-4, 1e-3)]))
     mBA = float(rng.choice([0, rng.uniform(1e-4, 1e-3)]))
     # one-way and unequal two-way flow between the two most recently founded demes (C and D)
+    # ancestors of the admixed deme and the sources of the pulse listed in dadi's axis order or the other way round (with their
+    # proportions listed accordingly: the same graph); the pulse has one or two sources
+    list_in_axis_order = bool(rng.random() < 0.3)
+    f2 = float(rng.choice([0.0, rng.uniform(0.05, 0.2)]))
     mCD = float(rng.choice([0, rng.uniform(1e-4, 1e-3), rng.uniform(1e-4, 1e-3)]))
     mDC = float(rng.choice([0, rng.uniform(1e-4, 1e-3)]))
     f = float(rng.uniform(0.05, 0.3))
@@ -211,7 +216,8 @@ def make_four(rng, demes):
         b.add_deme("A", ancestors=["anc"], epochs=[dict(start_size=NA * c, end_time=0)])
         b.add_deme("B", ancestors=["anc"], epochs=[dict(start_size=NB * c, end_time=0)])
         b.add_deme("C", ancestors=["A"], start_time=tu(t2), epochs=[dict(start_size=NC * c, end_time=0)])
-        b.add_deme("D", ancestors=["B", "C"], proportions=[pB, 1 - pB], start_time=tu(t3),
+        anc_D, prop_D = (["B", "C"], [pB, 1 - pB]) if list_in_axis_order else (["C", "B"], [1 - pB, pB])
+        b.add_deme("D", ancestors=anc_D, proportions=prop_D, start_time=tu(t3),
                    epochs=[dict(start_size=ND * c, end_size=NDe * c, size_function=fnD, end_time=0)])
         if mAD:
             b.add_migration(demes=["A", "D"], rate=mAD / c)
@@ -221,7 +227,11 @@ def make_four(rng, demes):
             b.add_migration(source="C", dest="D", rate=mCD / c)
         if mDC:
             b.add_migration(source="D", dest="C", rate=mDC / c)
-        b.add_pulse(sources=["D"], dest="B", proportions=[f], time=tu(tp))
+        if f2:
+            src, prp = (["A", "D"], [f2, f]) if list_in_axis_order else (["D", "A"], [f, f2])
+            b.add_pulse(sources=src, dest="B", proportions=prp, time=tu(tp))
+        else:
+            b.add_pulse(sources=["D"], dest="B", proportions=[f], time=tu(tp))
         return b.resolve()
 
     def prog(ns, pts, dadi=None):
@@ -238,10 +248,10 @@ def make_four(rng, demes):
         nuD = nu_of(fnD, ND, NDe, N0, 0.0, t3 / (2 * N0))
         kw = dict(nu1=NA / N0, nu2=NB / N0, nu3=NC / N0, nu4=nuD, m21=M(mBA), m14=M(mAD), m41=M(mAD), m43=M(mCD), m34=M(mDC))
         phi = Integration.four_pops(phi, xx, Tc, **kw)
-        phi = PhiManip.phi_4D_admix_into_2(phi, 0, 0, f, xx, xx, xx, xx)
+        phi = PhiManip.phi_4D_admix_into_2(phi, f2, 0, f, xx, xx, xx, xx)
         phi = Integration.four_pops(phi, xx, Tc + Td, initial_t=Tc, **kw)
         return Spectrum.from_phi(phi, ns, (xx, xx, xx, xx))
-    return build, prog, ["A", "B", "C", "D"], dict(fnD=fnD, t=(t1, t2, t3, tp), pB=pB, m=(mAD, mBA, mCD, mDC), f=f), True
+    return build, prog, ["A", "B", "C", "D"], dict(fnD=fnD, t=(t1, t2, t3, tp), pB=pB, m=(mAD, mBA, mCD, mDC), f=(f, f2), listed_in_axis_order=list_in_axis_order), True
 
 
 def make_merge(rng, demes):
@@ -438,6 +448,58 @@ def run_migmat(spec, rec, dadi, demes):
         if ok1 and ok2:
             rec.close("demes-equals-program", cmp(fd.data, fh.data), TOL, site="Spectrum.from_demes", tags=tags)
             rec.hit("migration-pairs-%dD" % N, int((rate > 0).sum()))
+
+
+def run_migwindow(spec, rec, dadi, demes):
+    """migrations that start and stop in the middle of constant epochs, at times where nothing else happens: the integration has
+    to be cut there all the same"""
+    from dadi import Numerics, PhiManip, Integration, Spectrum
+    for ci in range(spec["n"]):
+        rng = rng_for(spec["seed"], "C16migwin", ci)
+        N0 = 1000.0
+        t1 = float(rng.uniform(600, 1200))
+        NA, NB = logu(rng, 400, 3000), logu(rng, 400, 3000)
+        # two windows: A->B during (a0, a1), B->A during (b0, b1); 0 < end times, start times < t1, all four distinct
+        cuts = sorted(float(v) for v in rng.uniform(40, t1 - 40, size=4))
+        a1, a0 = cuts[0], cuts[2]          # A->B active from a0 (older) to a1 (younger)
+        b1, b0 = cuts[1], cuts[3]
+        if ci % 2:
+            b0 = t1                       # one of them starts with the demes
+        mAB, mBA = float(rng.uniform(2e-4, 1.5e-3)), float(rng.uniform(2e-4, 1.5e-3))
+
+        def build():
+            b = demes.Builder(time_units="generations")
+            b.add_deme("anc", epochs=[dict(start_size=N0, end_time=t1)])
+            b.add_deme("A", ancestors=["anc"], epochs=[dict(start_size=NA, end_time=0)])
+            b.add_deme("B", ancestors=["anc"], epochs=[dict(start_size=NB, end_time=0)])
+            b.add_migration(source="A", dest="B", rate=mAB, start_time=a0, end_time=a1)
+            b.add_migration(source="B", dest="A", rate=mBA, start_time=b0, end_time=b1)
+            return b.resolve()
+        bps = sorted(set([t1, a0, a1, b0, b1, 0.0]), reverse=True)
+
+        def prog(ns_, p):
+            xx = Numerics.default_grid(p)
+            phi = PhiManip.phi_1D(xx)
+            phi = PhiManip.phi_1D_to_2D(xx, phi)
+            for hi, lo in zip(bps[:-1], bps[1:]):
+                mid = 0.5 * (hi + lo)
+                m21 = 2 * N0 * mAB if a1 < mid < a0 else 0.0        # B (pop 2) receives from A (pop 1)
+                m12 = 2 * N0 * mBA if b1 < mid < b0 else 0.0
+                phi = Integration.two_pops(phi, xx, (hi - lo) / (2 * N0), nu1=NA / N0, nu2=NB / N0, m12=m12, m21=m21)
+            return Spectrum.from_phi(phi, ns_, (xx, xx))
+        ns = [int(rng.integers(3, 7)), int(rng.integers(3, 7))]
+        pts = [16, 20, 24]
+        if not rec.case("migwin-%d" % ci, {"t1": t1, "A_to_B": [a0, a1, mAB], "B_to_A": [b0, b1, mBA], "ns": ns}, nontrivial=True):
+            continue
+        tags = {"template": "migwindow"}
+        ok, g = rec.noraise("graph-builds", build, site="demes.Builder", tags=tags)
+        if not ok:
+            rec.incon("emitter produced an invalid graph for the migration-window template: %r" % (g,))
+            continue
+        ok1, fd = rec.noraise("from_demes-returns", lambda: Spectrum.from_demes(g, ["A", "B"], ns, pts), site="Spectrum.from_demes", tags=tags)
+        ok2, fh = rec.noraise("program-returns", lambda: Numerics.make_extrap_func(prog)(ns, pts), site="dadi program", tags=tags)
+        if ok1 and ok2:
+            rec.close("demes-equals-program", cmp(fd.data, fh.data), TOL, site="Spectrum.from_demes", tags=tags)
 
 
 def run_invariance(spec, rec, dadi, demes):
